@@ -112,8 +112,28 @@ def _diff_keys(a, b, path=""):
     return "value-under:" + path
 
 
+def extra_documents():
+    """Object schemas whose annotations need care in the Python round trip, and documents with shared references."""
+    from mc.checks.c07 import description_alphabet
+
+    out = []
+    for d in description_alphabet():
+        out.append({"type": "object", "title": "Doc", "description": d, "properties": {"a": {"type": "integer"}}})
+        out.append({"type": "array", "items": {"type": "object", "title": "Doc", "description": d}})
+    for d in ("text", " x ", "a\n  b\n"):
+        out.append({"type": "object", "title": "Outer", "description": d, "properties": {"p": {"$ref": "#/definitions/inner"}, "q": {"$ref": "#/definitions/inner"}}, "definitions": {"inner": {"type": "object", "title": "Inner", "description": d + "!", "properties": {"n": {"type": "number", "default": 0}}}}})
+    shared = {"type": "string", "minLength": 1}
+    for comp in ("allOf", "anyOf", "oneOf"):
+        out.append({"type": "object", "title": "R", "properties": {"p": {comp: [{"$ref": "#/definitions/s"}], "default": "d"}, "q": {"$ref": "#/definitions/s"}}, "definitions": {"s": dict(shared)}})
+        out.append({"type": "object", "title": "R", "properties": {"q": {"$ref": "#/definitions/s"}, "p": {comp: [{"$ref": "#/definitions/s"}, {"maxLength": 5}]}}, "definitions": {"s": dict(shared), "t": {"default": "n/a", comp: [{"title": "x"}]}}})
+    return out
+
+
 def plan(tier, seed):
     items, meta = lattice.plan_items(tier, seed)
+    nd = len(extra_documents())
+    items = [("extra", lo, min(nd, lo + 20)) for lo in range(0, nd, 20)] + items
+    meta["extra_documents"] = nd
     if tier == "thorough":
         items = [it for it in items if it[0] not in ("d3", "wrapwrap")]
     meta["exhaustive"] = True
@@ -122,6 +142,14 @@ def plan(tier, seed):
 
 def work(item):
     st = runner.Stats()
+    if item[0] == "extra":
+        for n, schema in enumerate(extra_documents()[item[1]:item[2]]):
+            trip(st, schema, json.dumps(schema, sort_keys=True)[:200], 1)
+        # a document parsed after the others must still be in normal form (no state carried between documents)
+        for schema in ({"anyOf": [{"type": "integer"}, {"type": "string"}]}, {"type": ["integer", "null"]}):
+            trip(st, schema, "after-others:" + json.dumps(schema), 1)
+        docs.clear()
+        return st
     for sid, schema, values, ntrans in lattice.expand(item):
         if schema is None or not metaschema_valid(schema) or isinstance(schema, bool):
             continue
